@@ -7,7 +7,10 @@
    Completion of the CBC solves on each cell of the grid is runtime behaviour: enumerated on the implementation
    (harness/props/c16.py). *)
 From Coq Require Import ZArith QArith List String Bool.
+From Coq Require Import Qround Lqa Lia Arith.
 From Allfed Require Import Base.StrUtil Model.Tables Proofs.Tables Gen.CountryTable Model.LP Proofs.LPChar Proofs.LP_C16.
+From Allfed Require Import Gen.UnitTables Model.Units Model.LPBool Model.Report Model.Rounds Model.Validator Proofs.Units Proofs.LPBoolSound Proofs.LP_C01 Proofs.Report Proofs.Rounds Proofs.RoundsComp Proofs.Validator.
+From Allfed Require Base.QList Model.Helpers Proofs.Helpers.
 Import ListNotations.
 Open Scope Q_scope.
 
@@ -38,3 +41,100 @@ Theorem c16_seaweed_can_be_infeasible : exists i,
   admissible i /\ supplies_nonneg i /\ zero_charges i /\ caps_nonneg i /\ ~ (exists a, Feasible i ToHumans a).
 Proof. exists sw_bad. exact round1_infeasible_seaweed_example. Qed.
 Print Assumptions c16_seaweed_can_be_infeasible.
+
+(* (d) the built-in validation checks of src/optimizer/validate_results.py (Model/Validator.v), read in exact arithmetic,
+   cannot fire on an exact feasible assignment of the programme: a validation banner / assertion on a grid cell is therefore
+   either solver imprecision beyond the code's own tolerances or a formulation change - not a property of the data.
+   Two of the checks are NOT implied and are shown so by witnesses (round 3 vs round 1; optimum above 10 000 %). *)
+Theorem c16_validator_constraints_ok : forall i ty a skip, Feasible i ty a ->
+  Forall (sat a) (build i ty) /\ check_constraints_satisfied skip a (build i ty) = true.
+Proof. exact validator_constraints_ok. Qed.
+Print Assumptions c16_validator_constraints_ok.
+
+Theorem c16_validator_constraints_second_stage_ok : forall i ty v a skip, Feasible2 i ty v a ->
+  check_constraints_satisfied skip a (build i ty ++ second_stage i ty v) = true.
+Proof. exact validator_constraints_second_stage_ok. Qed.
+Print Assumptions c16_validator_constraints_second_stage_ok.
+
+Theorem c16_validator_sum_nutrients_ok : forall i c a v e ii code, lp_settings_ok i c -> Feasible2 i ToHumans v a ->
+  report (report_in i c a) = Ok (e, ii) -> first_optimum i v -> v <= 10000 ->
+  sum_nutrients_difference v (headline ii) == 0 /\
+  ensure_optimizer_returns_same_as_sum_nutrients code v (headline ii) = true.
+Proof. exact validator_sum_nutrients_ok. Qed.
+Print Assumptions c16_validator_sum_nutrients_ok.
+
+Theorem c16_validator_sum_nutrients_bound_sharp : forall v, 10000 < v ->
+  exists h, 0 <= v - h /\ v - h <= (5 # 100000) * v /\ (99995 # 100000) * v <= h /\
+            ensure_optimizer_returns_same_as_sum_nutrients "USA" v h = false.
+Proof. exact validator_sum_nutrients_bound_sharp. Qed.
+Print Assumptions c16_validator_sum_nutrients_bound_sharp.
+
+Theorem c16_validator_sum_nutrients_fires_above_10000 :
+  exists i c a v e ii, admissible i /\ lp_settings_ok i c /\ Feasible2 i ToHumans v a /\ first_optimum i v /\
+    report (report_in i c a) = Ok (e, ii) /\ 10000 < v /\
+    ensure_optimizer_returns_same_as_sum_nutrients "USA" v (headline ii) = false.
+Proof. exact validator_sum_nutrients_fires_above_10000. Qed.
+Print Assumptions c16_validator_sum_nutrients_fires_above_10000.
+
+Theorem c16_validator_nonneg_ok : forall i c ty a e ii, lp_settings_ok i c -> Feasible i ty a -> 0 <= sw_kcals i ->
+  given_nonneg i -> report (report_in i c a) = Ok (e, ii) ->
+  reported_nonneg ii /\ 0 <= headline ii /\ ensure_all_greater_than_or_equal_to_zero ii = true.
+Proof. exact validator_nonneg_ok. Qed.
+Print Assumptions c16_validator_nonneg_ok.
+
+Theorem c16_validator_zero_kcals_ok : forall foods, ensure_zero_kcals_have_zero_fat_and_protein false false foods = true.
+Proof. exact validator_zero_kcals_ok. Qed.
+Print Assumptions c16_validator_zero_kcals_ok.
+
+Theorem c16_validator_never_nan_ok : forall i c, admissible i -> lp_settings_ok i c -> never_divides_by_zero i c.
+Proof. exact validator_never_nan_ok. Qed.
+Print Assumptions c16_validator_never_nan_ok.
+
+Theorem c16_validator_feed_below_demand_round : forall i c ty a xf df xb db include_fat include_protein,
+  lp_settings_ok i c -> Feasible i ty a -> 0 <= sw_kcals i -> (df <= NM i)%nat -> (db <= NM i)%nat ->
+  c03_clause i a xf df xb db (NM i) ->
+  assert_feed_used_below_feed_demand include_fat include_protein c (demand xf df (NM i)) (fb_of i c a) = true /\
+  assert_biofuels_used_below_biofuels_demand include_fat include_protein c (demand xb db (NM i)) (fb_of i c a) = true.
+Proof. exact validator_feed_below_demand_round. Qed.
+Print Assumptions c16_validator_feed_below_demand_round.
+
+Theorem c16_validator_feed_below_demand_all_rounds :
+  forall G i1 a1 i2 a2 i3 a3 xf df xb db N c include_fat include_protein,
+  0 <= xf -> 0 <= xb -> glue_ok G N ->
+  Feasible i1 ToHumans a1 -> Feasible i2 ToAnimals a2 -> Feasible i3 ToHumans a3 ->
+  has_nonhuman i1 = true -> has_nonhuman i2 = true -> has_nonhuman i3 = true ->
+  0 < sw_kcals i1 -> 0 < sw_kcals i2 -> 0 < sw_kcals i3 ->
+  NM i1 = N -> NM i2 = N -> NM i3 = N ->
+  (forall m, (m < N)%nat -> at_ (feed_charge i1) m == round1_feed_charge G m) ->
+  (forall m, (m < N)%nat -> at_ (biofuel_charge i1) m == round1_biofuel_charge m) ->
+  (forall m, (m < N)%nat -> at_ (max_feed i2) m == round2_max_feed G (demand xf df N) m) ->
+  (forall m, (m < N)%nat -> at_ (max_biofuel i2) m == round2_max_biofuel (demand xb db N) m) ->
+  (forall m, (m < N)%nat -> at_ (feed_charge i3) m ==
+     round3_feed_charge G (Base.QList.tab N (feed_sum i2 a2)) (Base.QList.tab N (biofuel_sum i2 a2)) (demand xf df N) (demand xb db N) m) ->
+  (forall m, (m < N)%nat -> at_ (biofuel_charge i3) m ==
+     round3_biofuel_charge G (Base.QList.tab N (feed_sum i2 a2)) (Base.QList.tab N (biofuel_sum i2 a2)) (demand xf df N) (demand xb db N) m) ->
+  lp_settings_ok i1 c -> lp_settings_ok i2 c -> lp_settings_ok i3 c -> (df <= N)%nat -> (db <= N)%nat ->
+  (assert_feed_used_below_feed_demand include_fat include_protein c (demand xf df N) (fb_of i1 c a1) = true /\
+   assert_biofuels_used_below_biofuels_demand include_fat include_protein c (demand xb db N) (fb_of i1 c a1) = true) /\
+  (assert_feed_used_below_feed_demand include_fat include_protein c (demand xf df N) (fb_of i2 c a2) = true /\
+   assert_biofuels_used_below_biofuels_demand include_fat include_protein c (demand xb db N) (fb_of i2 c a2) = true) /\
+  (assert_feed_used_below_feed_demand include_fat include_protein c (demand xf df N) (fb_of i3 c a3) = true /\
+   assert_biofuels_used_below_biofuels_demand include_fat include_protein c (demand xb db N) (fb_of i3 c a3) = true).
+Proof. exact validator_feed_below_demand_all_rounds. Qed.
+Print Assumptions c16_validator_feed_below_demand_all_rounds.
+
+Theorem c16_validator_meat_dairy_ok : forall meat1 meat2 l milk1 milk2,
+  Model.Helpers.redistribute meat1 meat2 = Model.Helpers.Ok l ->
+  Proofs.Helpers.nonneg meat1 -> 0 <= lsum milk1 ->
+  assert_meat_dairy_doesnt_decrease_round_2 meat1 l milk1 milk2 = true.
+Proof. exact validator_meat_dairy_ok. Qed.
+Print Assumptions c16_validator_meat_dairy_ok.
+
+Theorem c16_validator_round3_vs_round1_not_implied :
+  exists charge3 a1 a3 v1 v3,
+    admissible (cx_in 2 []) /\ admissible (cx_in 2 charge3) /\
+    Feasible2 (cx_in 2 []) ToHumans v1 a1 /\ first_optimum (cx_in 2 []) v1 /\ a1 Obj 0%nat == v1 /\
+    Feasible2 (cx_in 2 charge3) ToHumans v3 a3 /\ first_optimum (cx_in 2 charge3) v3 /\ a3 Obj 0%nat == v3 /\
+    round3_percent_fed_not_lower_than_round1 100 v1 v3 = false.
+Proof. exact validator_round3_vs_round1_not_implied. Qed.
+Print Assumptions c16_validator_round3_vs_round1_not_implied.
